@@ -21,7 +21,7 @@ from . import facts, hirq as H, common as C
 FAITHFUL_M = {"as_ref", "as_mut", "into", "clone", "to_owned", "borrow", "borrow_mut", "as_str", "as_slice", "iter", "into_iter", "by_ref", "deref", "deref_mut",
               "as_deref", "as_deref_mut", "to_vec", "cloned", "copied", "as_path", "to_path_buf", "into_inner", "to_string", "as_bytes", "into_boxed_slice", "into_vec"}
 WRAP_M = {"map_err", "context", "with_context", "ok", "boxed", "whatever_context"}
-FAITHFUL_F = re.compile(r"(Into<.*>>::into|From<.*>>::from|AsRef<.*>>::as_ref|Option::Some|Box::<.*>::new|Box::new|Borrow<.*>>::borrow|IntoIterator>::into_iter|Clone>::clone)$")
+FAITHFUL_F = re.compile(r"(Into<.*>>::into|From<.*>>::from|AsRef<.*>>::as_ref|Option::Some|Box::<.*>::new|Box::new|Borrow<.*>>::borrow|IntoIterator>::into_iter|Clone>::clone|Cow::Owned|Cow::Borrowed)$")
 AUDIT = os.path.join(os.path.dirname(__file__), "..", "audit", "forwarders.tsv")
 
 
@@ -41,9 +41,10 @@ def core_call(body):
     env = {}
     while H.is_node(n):
         k = n[0]
-        if k == "block" and n[3] is not None and all(H.kind(s) == "slet" and s[3] is not None and len(H.pat_bindings(s[2])) == 1 and s[2][0] == "pbind" for s in n[2]):
+        if k == "block" and n[3] is not None and all(H.kind(s) == "slet" and s[3] is not None and (s[2][0] == "pwild" or (len(H.pat_bindings(s[2])) == 1 and s[2][0] == "pbind")) for s in n[2]):
             for s in n[2]:
-                env[H.pat_bindings(s[2])[0]] = _subst(s[3], env)
+                if s[2][0] != "pwild":  # `let _ = x;` only discards x
+                    env[H.pat_bindings(s[2])[0]] = _subst(s[3], env)
             n = n[3]
         elif k == "match" and len(n) > 5 and n[5] in ("TryDesugar", "AwaitDesugar"):
             n = n[2]
@@ -168,6 +169,91 @@ COUNTED = {"C01": 252, "C02": 116, "C03": 68, "C04": 103, "C05": 134, "C06": 71,
            "C26": 3, "C27": 3, "C28": 7, "C29": 12, "C30": 12, "C31": 42, "C32": 4, "C33": 3, "C34": 72}
 
 
+def setters(chk, fx, rule, files):
+    """option / builder setters named after a field store their argument in that field and in no other one"""
+    chk.rule(rule, "SETTER: a method `fn <field>(self, x)` of an options / builder struct assigns an expression containing x to self.<field>, and x reaches no other field")
+    files = set(files)
+    wanted = {"dicom_" + f.split("/")[0].replace("-", "_") for f in files}
+    n = 0
+    for key in sorted(fx.files):
+        if key[0] not in wanted:
+            continue
+        d = fx.crate(*key)
+        adts = {a["path"]: a for a in d["adts"]}
+        for h in d["hir"]:
+            if h["loc"]["f"] not in files or h["loc"].get("m") or "{closure" in h["path"]:
+                continue
+            m = re.match(r"(.*)::(\w+)$", h["path"])
+            if not m:
+                continue
+            base = re.sub(r"::<.*>$", "", m.group(1))
+            a = adts.get(base)
+            if not a:
+                continue
+            fields = [f["name"] if isinstance(f, dict) else f[0] for v in a.get("variants", []) for f in v.get("fields", [])]
+            name = m.group(2)
+            ps = param_names(h)
+            if name not in fields or len(ps) != 2 or ps[0] != "self" or ps[1] is None:
+                continue
+            asg = [(H.show(x[2], 3), x[3]) for x in H.walk(h["body"]) if H.kind(x) == "assign"]
+            if not asg:
+                continue
+            taint = {ps[1]}  # the argument and the locals computed from it
+            for s in H.walk(h["body"]):
+                if H.kind(s) == "slet" and s[3] is not None and any(local_uses(s[3], t) for t in taint):
+                    taint |= set(H.pat_bindings(s[2]))
+            carries = lambda r: any(local_uses(r, t) for t in taint)
+            own = [H.show(r, 5) for l, r in asg if l == f"self.{name}" and carries(r)]
+            other = [l for l, r in asg if l != f"self.{name}" and carries(r)]
+            n += 1
+            chk.expect(bool(own) and not other, rule, h["path"], f"stores `{ps[1]}` in self.{name}", f"self.{name} = <{ps[1]}>, no other field receives it",
+                       {"assigned": [(l, H.show(r, 5)) for l, r in asg]}, loc=C.fn_loc(h))
+    return n
+
+
+def rebuilds(chk, fx, rule, files):
+    """struct literals that rebuild Self from `self` (type-changing builder steps) copy every field they do not set from a parameter"""
+    chk.rule(rule, "REBUILD: in a method of struct S, a literal `S { f: self.f, .. }` that copies most fields from self initialises every field either from "
+                   "self.<the same field> or from a parameter of the method (no option silently reset to a constant, no field copied from another one)")
+    files = set(files)
+    wanted = {"dicom_" + f.split("/")[0].replace("-", "_") for f in files}
+    n = 0
+    for key in sorted(fx.files):
+        if key[0] not in wanted:
+            continue
+        d = fx.crate(*key)
+        for h in d["hir"]:
+            if h["loc"]["f"] not in files or h["loc"].get("m") or "{closure" in h["path"]:
+                continue
+            ps = [p for p in param_names(h) if p]
+            if "self" not in ps:
+                continue
+            for x in H.walk(h["body"]):
+                if H.kind(x) != "struct" or not isinstance(x[4], list):
+                    continue
+                base = re.sub(r"::<.*>$", "", re.sub(r"::\w+$", "", h["path"]))
+                if x[2] != base:
+                    continue
+                inits = [(f[0], f[1]) for f in x[4] if isinstance(f, list) and len(f) == 2 and isinstance(f[0], str)]
+                copies = [f for f, e in inits if H.show(faithful_core(e), 3) == f"self.{f}"]
+                if len(copies) * 2 < len(inits) or len(inits) < 3:
+                    continue
+                lets = {b: s[3] for s in H.walk(h["body"]) if H.kind(s) == "slet" and s[3] is not None for b in H.pat_bindings(s[2])}
+                for f, e in inits:
+                    n += 1
+                    c = faithful_core(e)
+                    from_param = any(local_uses(e, p) for p in ps if p != "self")
+                    # a local computed from the same field of self (and from no other field) counts as that field
+                    derived = H.kind(c) == "path" and c[2] in lets and set(re.findall(r"self\.(\w+)", H.show(lets[c[2]], 9))) == {f}
+                    ok = H.show(c, 3) == f"self.{f}" or derived or (from_param and not local_uses(e, "self"))
+                    chk.expect(ok, rule, h["path"], f"{x[2].split('::')[-1]}.{f}", f"self.{f} or a parameter", H.show(e, 5), loc=f"{h['loc']['f']}:{x[1]}")
+    return n
+
+
+REBUILDS_COUNTED = {"C05": 28, "C06": 26, "C09": 14, "C16": 5}
+SETTERS_COUNTED = {"C01": 4, "C02": 4, "C04": 1, "C05": 20, "C06": 9, "C07": 3, "C08": 3, "C09": 15, "C28": 4, "C29": 13, "C30": 13, "C34": 1}
+
+
 def check_property(chk, pid):
     import json
     files = None
@@ -179,7 +265,14 @@ def check_property(chk, pid):
     if not files or pid not in COUNTED:
         return 0
     fx = facts.load("W")
-    return check(chk, fx, "forwarders", files, floor=(COUNTED[pid] * 9) // 10)
+    n = check(chk, fx, "forwarders", files, floor=(COUNTED[pid] * 9) // 10)
+    if SETTERS_COUNTED.get(pid):
+        m = setters(chk, fx, "option-setters", files)
+        chk.floor("option-setters", "setters named after a field", m, (SETTERS_COUNTED[pid] * 9) // 10)
+    if REBUILDS_COUNTED.get(pid):
+        m = rebuilds(chk, fx, "option-rebuilds", files)
+        chk.floor("option-rebuilds", "fields of rebuild literals", m, (REBUILDS_COUNTED[pid] * 9) // 10)
+    return n
 
 
 def check(chk, fx, rule, files, floor=None):
@@ -197,9 +290,13 @@ def check(chk, fx, rule, files, floor=None):
             callee_params = param_names(fx.hirfn(cal))
         fn = h["path"]
         for p in params:
-            if p is None or p == "self" or p.startswith("_"):
+            if p is None or p == "self":
                 continue
             key = (fn, p)
+            if p.startswith("_") and key not in audit:
+                n += 1
+                chk.bad(rule, fn, f"param {p}", "passed once, as itself", "declared unused (`_` prefix): the call does not receive it", loc=C.fn_loc(h))
+                continue
             total = local_uses(c, p)
             direct = [i for i, a in enumerate(cores) if H.kind(a) == "path" and a[2] == p]
             if local_uses(h["body"], p) != total and not env_used(h, p):
